@@ -329,6 +329,108 @@ def replaced_link_scenarios(M, rec, rng, g, reps):
             pass
 
 
+def ensemble_steps(M, rec, rng, sm, reps):
+    """Scripted in every run: K traffic scenarios pushed through ONE NumPy `Network.step` of a chain of single-segment
+    links ((1, K) link states, (K,) origin variables; works on the unchanged library because every primitive broadcasts).
+    The bounds are decided per scenario from the declared inputs; some scenarios sit at the maximum density."""
+    import sym_metanet as sm_
+    NE, _CE = drive.engines(M)
+    was = sm.enabled
+    sm.enabled = False
+    try:
+        for i in range(reps):
+            K = rng.choice((2, 3, 5))
+            nl = rng.choice((2, 3))
+            rho_max, rho_crit, v_free, a = 180.0, round(rng.uniform(28.0, 38.0), 1), round(rng.uniform(90.0, 120.0), 1), round(rng.uniform(1.4, 2.4), 3)
+            lam = rng.choice((1, 2, 3))
+            nodes = [sm_.Node(name=f"EN{j}") for j in range(nl + 1)]
+            links = [sm_.Link(1, lam, 1.0, rho_max, rho_crit, v_free, a, name=f"EL{j}") for j in range(nl)]
+            # (a mainstream origin does not accept ensembles on the unchanged tree: its speed-limit branch needs one truth value)
+            kinds = [(("ramp", "in"), ("ramp", "out"), ("simple", "limited"))[(i + j) % 3] for j in range(nl)]
+            origins = []
+            caps = []
+            for j, (kind, eq) in enumerate(kinds):
+                C = round(rng.uniform(1200.0, 3000.0), 0)
+                if kind == "ramp":
+                    origins.append(sm_.MeteredOnRamp(C, eq, name=f"EO{j}"))
+                elif kind == "simple":
+                    origins.append(sm_.SimplifiedMeteredOnRamp(C, eq, name=f"EO{j}"))
+                else:
+                    origins.append(sm_.MainstreamOrigin(name=f"EO{j}"))
+                    C = lam * v_free * math.exp(-1 / a) * rho_crit
+                caps.append(C)
+            dest = sm_.Destination(name="ED")
+            net = sm_.Network(name="ens")
+            path = [nodes[0]]
+            for j in range(nl):
+                path += [links[j], nodes[j + 1]]
+            net.add_path(path=tuple(path), origin=origins[0], destination=dest)
+            for j in range(1, nl):
+                net.add_origin(origins[j], nodes[j])
+            ic = {}
+            decl = []
+            for j in range(nl):
+                rho = np.array([[rng.choice((rho_max, rho_max, rng.uniform(5.0, rho_crit), rng.uniform(rho_crit, rho_max))) for _ in range(K)]])
+                if all(x == rho[0, 0] for x in rho[0]):
+                    rho[0, -1] = rng.uniform(5.0, rho_crit)
+                rng_first = list(range(K))
+                rng.shuffle(rng_first)
+                rho = rho[:, rng_first]
+                v = np.array([[rng.uniform(1.0, v_free) for _ in range(K)]])
+                ic[links[j]] = {"rho": rho.copy(), "v": v.copy()}
+                w = np.array([rng.choice((0.0, rng.uniform(0.0, 60.0))) for _ in range(K)])
+                d = np.array([rng.uniform(300.0, 4000.0) for _ in range(K)])
+                o = {"w": w.copy(), "d": d.copy()}
+                kind, eq = kinds[j]
+                if kind == "ramp":
+                    o["r"] = np.array([rng.choice((1.0, rng.uniform(0.2, 1.0))) for _ in range(K)])
+                elif kind == "simple":
+                    o["q"] = np.array([rng.choice((1e6, rng.uniform(200.0, 3000.0))) for _ in range(K)])
+                else:
+                    o["v_ctrl"] = np.array([rng.choice((500.0, rng.uniform(20.0, v_free))) for _ in range(K)])
+                ic[origins[j]] = o
+                decl.append((rho, v, w, d))
+            pars = dict(T=10 / 3600, tau=18 / 3600, eta=60.0, kappa=40.0, delta=0.0122, phi=1.8)
+            T = pars["T"]
+            try:
+                net.step(init_conditions=ic, engine=NE(), **pars)
+                wn_all = [np.asarray(o.next_states["w"], float).reshape(-1) for o in origins]
+            except Exception as e:
+                rec.violation(f"{PROP}:ensemble: one Network.step over K scenarios of a single-segment chain failed ({type(e).__name__})",
+                              {"K": K, "kinds": kinds, "error": repr(e)[:300]})
+                continue
+            rec.count("ensemble_steps")
+            for j, (kind, eq) in enumerate(kinds):
+                rho, v, w, d = decl[j]
+                wn = wn_all[j]
+                if wn.shape != (K,):
+                    rec.violation(f"{PROP}:ensemble:{kind}[{eq}]: next queue does not hold one value per scenario", {"K": K, "shape": list(wn.shape)})
+                    continue
+                for k_ in range(K):
+                    q = d[k_] - (wn[k_] - w[k_]) / T
+                    cap = caps[j]
+                    scale = 1.0 + d[k_] + w[k_] / T + cap
+                    tol = 1e-7 * scale
+                    wit = {"K": K, "scenario": k_, "origin": f"{kind}[{eq}]", "rho_first_declared": rho[0].tolist(), "w": w.tolist(), "d": d.tolist(),
+                           "w_next": wn.tolist(), "inferred_flow": q, "capacity": cap, "rho_max": rho_max}
+                    rec.count("ensemble_origin_evaluations")
+                    rec.count("network_origin_evaluations")
+                    if wn[k_] < -TOL * (1 + w[k_] + T * d[k_]):
+                        rec.violation(f"{PROP}:ensemble:{kind}[{eq}]: next queue negative", wit)
+                    if q < -tol:
+                        rec.violation(f"{PROP}:ensemble:{kind}[{eq}]: admitted flow negative", wit)
+                    if q > cap + tol:
+                        rec.violation(f"{PROP}:ensemble:{kind}[{eq}]: admitted flow exceeds capacity", wit)
+                    if q > d[k_] + w[k_] / T + tol:
+                        rec.violation(f"{PROP}:ensemble:{kind}[{eq}]: admitted flow exceeds demand plus queue", wit)
+                    if kind != "main" and rho[0, k_] == rho_max:
+                        rec.count("jam_evaluations")
+                        if abs(q) > tol:
+                            rec.violation(f"{PROP}:ensemble:{kind}[{eq}]: admitted flow not zero at maximum density", wit)
+    finally:
+        sm.enabled = was
+
+
 def run(M, rec, tier, seed, k, n):
     np.seterr(all="ignore")
     rng = random.Random(seed * 1000 + k + 1700)
@@ -364,6 +466,7 @@ def run(M, rec, tier, seed, k, n):
         W.symbolic_steps(M, rec, rng, symvals, 12 if tier == "quick" else 80, points=2)
         W.inplace_pairs(M, rec, rng, 40 if tier == "quick" else 400, allow_inf=False, before_case=on_case)
         replaced_link_scenarios(M, rec, rng, G.NetGen(rng), 24 if tier == "quick" else 200)
+        ensemble_steps(M, rec, rng, sm, 24 if tier == "quick" else 200)
         W.closed_loop(M, rec, rng, 7 if tier == "quick" else 14, 90 if tier == "quick" else 260, on_step=on_step)
     finally:
         sm.uninstall()
